@@ -43,6 +43,15 @@ ISort == /\ l <= Len(Rec) /\ Ev.ev = "sort_new_items"
          /\ order' = Ev.written
          /\ placedI' = placedI \cup {x \in Range(order) : \E p \in placedI : p[1] = x[1]}
          /\ l' = l + 1
+\* C14: sort() - same elements (comments may go), grouped by kind, ascending names in a kind
+ISortFull == /\ l <= Len(Rec) /\ Ev.ev = "sort"
+             /\ Ev.panic = FALSE
+             /\ "relation_violated" \notin DOMAIN Ev
+             /\ IdealSortFull(EEof(order), [i \in 1..Len(order) |-> i],
+                              [j \in 1..Len(Ev.written) |-> IdxIn(order, Ev.written[j])])
+             /\ order' = Ev.written
+             /\ placedI' = Range(Ev.written)
+             /\ l' = l + 1
 IWrite == /\ l <= Len(Rec) /\ Ev.ev = "write"
           /\ Ev.written = order
           /\ UNCHANGED <<order, placedI>>
@@ -50,7 +59,7 @@ IWrite == /\ l <= Len(Rec) /\ Ev.ev = "write"
 
 IdealInit == order = <<>> /\ placedI = {} /\ l = 1
              /\ E = <<>> /\ lists = [k \in Kinds |-> <<>>] /\ panic = FALSE /\ last = [op |-> "init"]
-IdealNext == (ILoad \/ IInsert \/ ISort \/ IWrite) /\ UNCHANGED vars
+IdealNext == (ILoad \/ IInsert \/ ISort \/ ISortFull \/ IWrite) /\ UNCHANGED vars
 IdealTraceSpec == IdealInit /\ [][IdealNext]_<<ivars, vars>>
 
 TraceAccepted ==
